@@ -152,6 +152,10 @@ class Model:
                 r.state = 'paused'
         elif k == 'resume':
             r = self.routines[op[1]]
+            if r.state == 'paused' and r.waiting is not None:
+                # resuming a routine that hangs on a condition lets it run
+                # past the wait: an interplay no documentation defines
+                raise Ambiguous('resume of a routine hanging on a condition')
             if r.state == 'paused':
                 r.state = 'suspended'
                 self.play_on(r.name, r.clock, None, now)
@@ -228,6 +232,7 @@ class Model:
         del waiters[:]
         for n in names:
             r = self.routines[n]
+            r.waiting = None
             if r.state == 'done':
                 continue
             # tt._clock.sched(0, tt): delta 0 from the caller's logical time
@@ -270,6 +275,7 @@ class Model:
                 return None
             if res[0] == 'hang':
                 r.state = 'suspended'
+                r.waiting = res[1]
                 return None
             if res[0] == 'raise':
                 r.state = 'done'
@@ -294,10 +300,15 @@ class Model:
                 break
             t = max(t, self.now)   # beats moved forward: performed at once
             # simultaneous events on different clocks: order is unspecified
+            # Events on different clocks closer than the wake-up latency a
+            # real-time thread may suffer (the simulation injects up to
+            # 1/64 s) have no defined order in RT.
             for e in self.queue:
-                if e is not best and e['clock'] != best['clock'] and \
-                        self.key_to_secs(e['clock'], e['key']) == \
-                        self.key_to_secs(best['clock'], best['key']):
+                if e is not best and e['clock'] != best['clock'] and abs(
+                        self.key_to_secs(e['clock'], e['key']) -
+                        self.key_to_secs(best['clock'], best['key'])) \
+                        <= self.WINDOW and (self.interacts(best['r']) or
+                                            self.interacts(e['r'])):
                     self.simultaneous = True
             self.queue.remove(best)
             self.now = t
@@ -312,3 +323,20 @@ class Model:
         return self
 
     simultaneous = False
+    WINDOW = F(1, 32)
+    # ops by which a routine changes what other routines observe; two
+    # routines that only log / wait / send / wait on conditions do not
+    # influence one another, whatever their relative order
+    INTERACTING = {'pause', 'resume', 'stop', 'tempo', 'beats', 'meter',
+                   'play', 'csignal', 'ctest', 'cunhang', 'fset'}
+
+    def interacts(self, rname):
+        """Does the routine, in the step it is about to run (up to its next
+        yield), touch state shared with other routines?"""
+        r = self.routines[rname]
+        for op in r.body[r.pc:]:
+            if op[0] in self.INTERACTING:
+                return True
+            if op[0] in ('wait', 'yield', 'cwait', 'fwait'):
+                break
+        return False
